@@ -10,7 +10,7 @@ use geo_types::{
     Coord, CoordFloat, CoordNum, Error, Geometry, GeometryCollection, Line, LineString, MultiLineString, MultiPoint, MultiPolygon, Point,
     Polygon, Rect, Triangle,
 };
-use geo::Vector2DOps;
+use geo::{Convert, TryConvert, Vector2DOps};
 use serde_json::{json, Value};
 use std::convert::TryFrom;
 use std::fmt::Debug;
@@ -353,6 +353,33 @@ fn pair_float<T: Sc + CoordFloat>(cx: &mut Ctx, case: &Value) {
     }
 }
 
+/// geo::Convert (From between scalars) and geo::TryConvert (TryFrom): values kept, Err exactly when TLC says a coordinate leaves i32
+fn pair_convert(cx: &mut Ctx, case: &Value) {
+    let mut k = K::new::<f64>(cx, case);
+    let (a32, b32): (Coord<i32>, Coord<i32>) = (co(&case["a"]), co(&case["b"]));
+    let (a64, b64): (Coord<i64>, Coord<i64>) = (co(&case["a"]), co(&case["b"]));
+    let (af, bf): (Coord<f64>, Coord<f64>) = (co(&case["a"]), co(&case["b"]));
+    let (af32, bf32): (Coord<f32>, Coord<f32>) = (co(&case["a"]), co(&case["b"]));
+    k.eq("line_convert_i32_to_i64", "Line<i32>(a, b).convert() : Line<i64>", guard(|| { let l: Line<i64> = Line::new(a32, b32).convert(); l }), Line::new(a64, b64));
+    k.eq("line_convert_i32_to_f64", "Line<i32>(a, b).convert() : Line<f64>", guard(|| { let l: Line<f64> = Line::new(a32, b32).convert(); l }), Line::new(af, bf));
+    k.eq("line_convert_f32_to_f64", "Line<f32>(a, b).convert() : Line<f64>", guard(|| { let l: Line<f64> = Line::new(af32, bf32).convert(); l }), Line::new(af, bf));
+    k.eq("linestring_convert_i32_to_f64", "LineString<i32>[a, b, a].convert() : LineString<f64>",
+         guard(|| { let l: LineString<f64> = LineString(vec![a32, b32, a32]).convert(); l }), LineString(vec![af, bf, af]));
+    k.eq("line_try_convert_small", "Line<i64>(a, b).try_convert() : Result<Line<i32>, _>",
+         guard(|| { let r: Result<Line<i32>, _> = Line::new(a64, b64).try_convert(); r.ok() }), Some(Line::new(a32, b32)));
+    let unit = iv(&case["conv_unit"][0]) * iv(&case["conv_unit"][1]);
+    let big = |c: Coord<i64>| Coord { x: c.x * unit, y: c.y * unit };
+    let want = if case["conv_fits"].as_bool().unwrap() {
+        let n = |c: Coord<i64>| Coord { x: (c.x * unit) as i32, y: (c.y * unit) as i32 };
+        Some(LineString(vec![n(a64), n(b64)]))
+    } else {
+        None
+    };
+    let sub = if want.is_some() { "linestring_try_convert_fits" } else { "linestring_try_convert_overflow" };
+    k.eq(sub, "LineString<i64>[a * 1 400 000 000, b * 1 400 000 000].try_convert() : Result<LineString<i32>, _> (.ok())",
+         guard(|| { let r: Result<LineString<i32>, _> = LineString(vec![big(a64), big(b64)]).try_convert(); r.ok() }), want);
+}
+
 pub fn pair_case(cx: &mut Ctx, n: u64, case: &Value) {
     if !cx.wants("X11") {
         return;
@@ -367,6 +394,7 @@ pub fn pair_case(cx: &mut Ctx, n: u64, case: &Value) {
     pair_float::<f32>(cx, case);
     pair_t::<i64>(cx, case);
     pair_t::<i32>(cx, case);
+    pair_convert(cx, case);
 }
 
 // ------------------------------------------------------------------------------------------------ tri: cross product, Triangle, Rect setters
